@@ -211,7 +211,21 @@ func runC10(c *Ctx) {
 	// ---- R4
 	commitFn := c.Fn("C10.R4", "centrifuge", "(*Client).commitSubscription")
 	if commitFn != nil {
-		stops := CallsIn(commitFn, false, stopB)
+		// the rollback may sit in a helper called from commitSubscription: judge the path from the
+		// instruction of commitSubscription through which the release is reached
+		dv := w.Deep(commitFn, 2)
+		var stops []ssa.CallInstruction
+		seenRep := map[ssa.Instruction]bool{}
+		for _, s := range dv.Calls(stopB) {
+			for _, r := range dv.Reps(s) {
+				if !seenRep[r] {
+					seenRep[r] = true
+					if rc := asCall(r); rc != nil {
+						stops = append(stops, rc)
+					}
+				}
+			}
+		}
 		c.Anchor("C10.R4", "StopBuffering calls in commitSubscription rollback paths", len(stops) >= 1)
 		for _, s := range stops {
 			bad := PathQ{Goal: func(in ssa.Instruction) bool {
